@@ -30,6 +30,8 @@ inductive Rule
   | falsyReq
   /-- left out when falsy; absent means `None` -/
   | falsyOpt
+  /-- `None` in memory is written as the default; absent means `None` (relation confidence) -/
+  | noneDflt (d : String)
 deriving DecidableEq, Repr
 
 structure ASpec where
@@ -77,6 +79,8 @@ def written (r : Rec) (s : ASpec) : Option String :=
   | .dfltNone d, some v => if v == d then none else some v
   | .falsyReq, some v => if v == "" then none else some v
   | .falsyOpt, some v => if v == "" then none else some v
+  | .noneDflt _, some v => some v
+  | .noneDflt d, none => some d
   | _, none => none
 
 /-- `generate_xml`: the attributes of the element -/
@@ -91,7 +95,7 @@ def readBack (a : Attrs) (s : ASpec) : Option (Option String) :=
   | none =>
     match s.rule with
     | .req | .falsyReq => none
-    | .opt | .dfltNone _ | .falsyOpt => some none
+    | .opt | .dfltNone _ | .falsyOpt | .noneDflt _ => some none
     | .dflt d | .always d => some (some d)
 
 /-- `create_from_xml` -/
@@ -137,7 +141,7 @@ def relationTable (type : String) : List ASpec :=
   (if type == "inter" || type == "intra" then
     [⟨"source-concept", .str, .req, none⟩, ⟨"target-concept", .str, .req, none⟩] else []) ++
   (if type == "name" || type == "description" || type == "container" || type == "original" then []
-   else [⟨"description", .str, .req, none⟩, ⟨"predicate", .str, .req, none⟩, ⟨"confidence", .nat, .req, none⟩])
+   else [⟨"description", .str, .req, none⟩, ⟨"predicate", .str, .req, none⟩, ⟨"confidence", .nat, .noneDflt "10", none⟩])
 
 def attachmentTable : List ASpec := [
   ⟨"name", .str, .req, none⟩, ⟨"media-type", .str, .req, none⟩, ⟨"display-name-singular", .str, .req, none⟩,
